@@ -154,6 +154,10 @@ func run(args []string) int {
 				}
 			}
 			fmt.Printf("%s: %d/%d obligations discharged (%d cases)\n", name, ok, len(r.Obls), r.Cases)
+			if msg := smoke(p, fn, fc); msg != "" && ok == len(r.Obls) {
+				fmt.Printf("  VACUOUS: %s\n", msg)
+				bad++
+			}
 		}
 		if bad > 0 {
 			return 1
